@@ -77,6 +77,9 @@ def gen_case(rng, i, tier, pool):
         bps = max(1, abs(word)) * ch
         ln = rng.choice([0, bps - 1, bps, bps + 1, 2 * bps - 1, 3 * bps, 4096, 4096, 65536, 200000, -5, 1])
         l = "read %d %d %d %d" % (word, sg, be, ln)
+        if rng.random() < 0.2:
+            lines.append(l + " - wr")          # the public wrapper ov_read: return value, frames, position, nothing written beyond
+            continue
         if rng.random() < 0.6:
             k = rng.randint(1, 24)
             vals = [rng.choice(pool) for _ in range(k)]
@@ -141,6 +144,8 @@ def run(chk):
                     frames = min(avail, ln // bps)
                     if rc != str(frames * bps) or adv != frames << hs:
                         bad = "frames: expected %d frames (%d bytes, advance %d), got rc=%s adv=%d" % (frames, frames * bps, frames << hs, rc, adv)
+                    elif kv.get("wr") == "1":
+                        pass              # through ov_read: no filter, the input floats are not known; counts and position were checked
                     else:
                         raw = bytes.fromhex(inn) if inn != "-" else b""
                         got = bytes.fromhex(out) if out != "-" else b""
@@ -177,6 +182,11 @@ def run(chk):
             mv = dict(t.split("=", 1) for t in ml.split(" ")) if "=" in ml else {}
             if int(kv["avail"]) == 0 or (int(kv["avail"]) < 0 and int(kv["adv"]) <= 0):
                 continue          # nothing decoded (end of stream, or an unprimed read that was refused / hit the end): conversion not exercised
+            if kv.get("wr") == "1":
+                if (kv["rc"], kv["adv"]) != (mv.get("rc"), mv.get("adv")):
+                    dis.append(({"ops": r["ops"], "c": [cl], "m": [ml]}, (j, cl[:300], ml[:300])))
+                    break
+                continue
             if (kv["rc"], kv["adv"], kv["out"]) != (mv.get("rc"), mv.get("adv"), mv.get("out")):
                 dis.append(({"ops": r["ops"], "c": [cl], "m": [ml]}, (j, cl[:300], ml[:300])))
                 break
